@@ -16,8 +16,21 @@ evaluated on the implementation at every point the property quantifies over.
   perm    (c) an in-process order-preserving map that evaluates the tasks in an adversarially chosen permutation
               and writes results into slots by submission index; small-population variants enumerate ALL
               permutations of a map call.
-  pmap / toy   tie the Lean algebra (pmap with a schedule, resume with a complete / incomplete checkpoint) to the
-              Python helpers used above.
+  pmap / toy / hres   tie the Lean algebra (pmap with a schedule, resume with a complete / incomplete checkpoint, the
+              hidden-state machine Resume.toyHidden) to the Python helpers used above.
+  mig         tools.migRing against its model Migration.migRingWith (tied to /repo).
+
+HIDDEN STATE (harness/props/c17_hidden.py, the executable premise of C17.resume_of_hidden_constant): a deep fingerprint of
+all module-level and class-level state of every deap.* module (containers, iterators / generators, class attributes,
+function defaults, closure cells) and of the script-level primitive sets is taken
+  * around the second in-process run of every `det` case (after every generation),
+  * around the runs of `rerun` (every family twice in a row, run lengths 0, 1, (2)),
+  * around a single call of EVERY public operator of deap.tools / deap.gp / deap.algorithms / deap.cma (`op`,
+    harness/props/c17_ops.py; `opcover` counts public names without a recipe).
+State a run creates or modifies and leaves behind is reported `CORRESPONDENCE: hidden state: <module attribute> ...`
+(lib.run_check then searches a failing history); the targeted histories that turn it into a concrete failing input are
+`rerun` (twice in a row), `inproc` (every checkpoint restored in the same process, confirmed by kill + new process) and
+the kill/resume of the families whose call counts are odd (gp_partial).
 """
 import itertools
 import json
@@ -30,6 +43,7 @@ import subprocess
 import sys
 import tempfile
 import time
+import warnings
 
 HERE = os.path.dirname(os.path.abspath(__file__))
 HARNESS = os.path.dirname(HERE)
@@ -40,24 +54,37 @@ from lib import Case, Infra, REPO  # noqa: E402
 
 os.environ.setdefault("DEAP_REPO", REPO)
 from props import c17_families as F  # noqa: E402
+from props import c17_hidden as H  # noqa: E402
+from props import c17_ops as O  # noqa: E402
 
 ANCHORS = [("deap/algorithms.py", []), ("deap/tools/support.py", ["HallOfFame", "ParetoFront", "Logbook", "Statistics"]),
            ("deap/tools/emo.py", ["selNSGA3WithMemory", "selNSGA3", "selNSGA2", "selSPEA2", "selTournamentDCD"]),
            ("deap/cma.py", ["Strategy", "StrategyOnePlusLambda", "StrategyMultiObjective"]),
            ("deap/creator.py", []), ("deap/gp.py", ["MetaEphemeral", "Primitive", "Terminal", "PrimitiveTree"]),
-           ("deap/base.py", ["Toolbox", "Fitness"]), ("doc/tutorials/advanced/checkpoint.rst", [])]
+           ("deap/base.py", ["Toolbox", "Fitness"]), ("deap/tools/migration.py", []),
+           ("doc/tutorials/advanced/checkpoint.rst", [])]
 LEVEL = "partial"
-RULE = ("15 families (harness/props/c17_families.py): GA on lists, NSGA-II (ngen=10, MU=16), SPEA2, NSGA-III with "
+RULE = ("17 families (harness/props/c17_families.py): GA on lists, NSGA-II (ngen=10, MU=16), SPEA2, NSGA-III with "
         "memory, GP with ephemerals (node replacement / ephemeral / insert / shrink mutations, tight staticLimit, ngen=6), "
         "CMA-ES (array individuals), (1+lambda)-CMA, MO-CMA-ES with mu = lambda, mu < lambda and mu > lambda, ES on "
         "float32 numpy individuals, CMA-ES N=30 lambda=6 (ngen=6), GA with MultiStatistics chapters whose logbook is "
-        "streamed, strongly typed GP with a bool<int hierarchy and a third builtin type / a third user-defined type (two families, ngen=4); the GA logbook is "
+        "streamed, strongly typed GP with a bool<int hierarchy and a third builtin type / a third user-defined type (two families, ngen=4), "
+        "GP with functools.partial(random.randint/uniform) ephemerals, odd population size, genHalfAndHalf also for the "
+        "mutation subtrees and mutEphemeral one/all (gp_partial, ngen=4), GA on 3 demes with tools.migRing every 2 "
+        "generations (ga_demes, ngen=4); the GA logbook is "
         "streamed every 2 generations; 3 variants built from caller-owned shared cmatrix/centroid/parent/population "
-        "and the 4 packaged loops of deap.algorithms for (a) and (c).  EVERY tier: (a) det for all 22 (GP families in fresh interpreters with six different PYTHONHASHSEEDs and six different import histories); (b) kill/resume "
-        "for ALL 15 families at EVERY generation 0..ngen (quick: ngen=3 unless stated, two pickle protocols per crash "
+        "and the 4 packaged loops of deap.algorithms for (a) and (c).  EVERY tier: (a) det for all 24 (with the hidden-state "
+        "fingerprint of every deap.* module after every generation of the second run; GP families in fresh interpreters with six different PYTHONHASHSEEDs and six different import histories); rerun: all 24 twice in a row at run lengths 0, 1 (thorough: 0, 1, 2); inproc: every "
+        "checkpoint of the 17 families restored in the same process; op: every public operator of deap.tools / gp / "
+        "algorithms / cma once (thorough: 5 inputs) with the hidden-state fingerprint around the call and the call "
+        "repeated from identical generator states; (b) kill/resume "
+        "for ALL 17 families at EVERY generation 0..ngen (quick: ngen=3 unless stated, two pickle protocols per crash "
         "point rotating so that all six occur; thorough: ngen=6, all six protocols, 3 seeds); (c) fork pools with worker "
         "counts 1..8 (quick: all eight for GA and eaSimple, three per other family) and one spawn pool, random per-task "
         "delays; all 24 permutations of the 4-task map calls of the small variants + reverse/rotate/random schedules. "
+        "hres: 30 (thorough 100) histories of the hidden-state toy machine; mig: 150 (thorough 1500) calls of tools.migRing "
+        "on 0..4 demes over a small genome universe (equal genomes), k 0..3, six selection / replacement callables, "
+        "default / permuted / malformed migration arrays, against the Lean model. "
         "The seed never selects families or clauses. Non-trivial = every case (each is a complete run)")
 EXHAUSTIVE = {"quick": False, "thorough": False}
 TIME_BUDGET = {"quick": 120, "thorough": 1200}
@@ -68,14 +95,31 @@ TRUSTED = ["the operating system: SIGKILL ends the worker at once, a new process
            "fingerprints (harness/props/c17_families.py) describe the complete observable state: genomes, fitness, "
            "archive items and keys, logbook rows/chapters/stream position, strategy and selector-memory arrays "
            "byte-wise, random.getstate(), numpy.random.get_state()"]
-ASSUMPTIONS = ["evaluation functions are pure (they neither draw random numbers nor keep state) — what "
+ASSUMPTIONS = ["the restoring process executes the script's definitions (creator.create, primitive sets, toolbox) BEFORE it "
+               "unpickles the checkpoint, as doc/tutorials/advanced/checkpoint.rst does (definitions at module level, "
+               "pickle.load inside main()); a process that unpickles GP trees whose ephemerals were declared with "
+               "partial(random.randint, ...) before it has built its primitive set gets ephemeral classes re-created "
+               "from the pickled function, i.e. drawing from a private copy of the generator - outside the documented "
+               "usage, no stream is built on that order",
+               "hidden-state fingerprint: CPython's own bookkeeping (__slotnames__ set by copyreg, __warningregistry__, "
+               "eval's __builtins__ entry in a primitive set's context) is not library state; classes made by "
+               "creator.create and ephemeral classes registered during a run are definitions (additions are ignored, "
+               "modifications of existing ones are reported); state held in C extension objects without __reduce__ "
+               "or in closures of functions that are not reachable from a deap module is invisible to the detector",
+               "evaluation functions are pure (they neither draw random numbers nor keep state) — what "
                "'order-preserving parallel map gives the same results' presupposes",
                "the user re-creates classes, primitive sets and toolbox by importing the same module in the new "
                "process (code is not part of a checkpoint), as in doc/tutorials/advanced/checkpoint.rst"]
-EXPLANATION = ("The protocol lines of this check (pmap with a schedule, toy resume) validate ONLY the driver's algebra "
-               "against harness-local helpers (slot_map, a toy step; schedules partly taken from completion orders "
-               "observed in the real pool runs): they are tied to nothing in /repo.  The tie to DEAP is the "
-               "process-level oracle (det / crash / pool / perm), which runs the real library.  "
+EXPLANATION = ("The protocol lines pmap / resume / hresume validate ONLY the driver's algebra "
+               "against harness-local helpers (slot_map, a toy step, the hidden-state toy; schedules partly taken from "
+               "completion orders observed in the real pool runs): they are tied to nothing in /repo.  The `mig` lines "
+               "ARE tied to /repo: tools.migRing is run on the real objects and compared with Migration.migRingWith.  "
+               "The tie of the three equations to DEAP is the "
+               "process-level oracle (det / rerun / inproc / crash / pool / perm), which runs the real library, and the "
+               "hidden-state detector, which checks the premise of C17.resume_of_hidden_constant (no step of the "
+               "library writes state outside the checkpointed objects) on every family run and on every public "
+               "operator; where that premise fails C17.resume_iff_hidden_irrelevant says that resumption holds exactly "
+               "when the hidden state never reaches the visible output, which the targeted histories decide.  "
                "partial, and the weakest of the twenty in its Lean part: the theorems are the algebra of "
                "checkpointing (deterministic, resume, resume_many) and of order-preserving maps "
                "(schedule_independent, loop_schedule_independent).  That the real objects pickle their complete "
@@ -159,7 +203,8 @@ def compare(what, trace, final, rtrace, rfinal, from_gen=0):
 def eval_det(d):
     fam, seed, ngen = d["family"], d["seed"], d["ngen"]
     rtrace, rfinal = reference(fam, seed, ngen)
-    st2, t2 = F.run(fam, seed, ngen)
+    watch = HiddenWatch()
+    st2, t2 = F.run(fam, seed, ngen, on_gen=watch)
     orc = compare("second run in the same process", dict((str(k), v) for k, v in t2.items()),
                   norm(F.fingerprint(st2)), rtrace, rfinal)
     if orc is None and F.shared_inputs_fp() != F.SHARED_FP0:
@@ -184,7 +229,136 @@ def eval_det(d):
                               res["final"], rtrace, rfinal)
     if orc:
         orc = "family=%s seed=%d ngen=%d: %s" % (fam, seed, ngen, orc)
+    elif watch.changes:
+        # no failing history HERE, but the premise "no state outside the checkpointed objects" is broken: a break of the
+        # correspondence (C17.resume_of_hidden_constant no longer applies); lib.run_check searches a failing history
+        orc = watch.report("family=%s seed=%d ngen=%d" % (fam, seed, ngen))
     return Case(d, [], [], orc, tag="det/%s" % fam)
+
+
+# ---- hidden state (the executable premise of C17.resume_of_hidden_constant) ------------------------------------------
+
+class HiddenWatch(object):
+    """Fingerprints all module- and class-level state of deap.* (and the script-level primitive sets) when created and
+    again after every generation it is called for; remembers the first change."""
+
+    def __init__(self):
+        self.s0 = H.snapshot(F.script_roots())
+        self.changes, self.gen = [], None
+
+    def __call__(self, st=None):
+        if not self.changes:
+            ch = H.diff(self.s0, H.snapshot(F.script_roots()))
+            if ch:
+                self.changes, self.gen = ch, (st or {}).get("gen")
+        return self.changes
+
+    def report(self, what):
+        return ("CORRESPONDENCE: hidden state: %s: the run created or modified state outside population, archive, logbook, "
+                "strategy object and both generator states%s — %s" % (
+                    what, "" if self.gen is None else " (seen after generation %s)" % self.gen,
+                    H.describe(self.changes)))
+
+
+def eval_rerun(d):
+    """(a) 'identical every time': the family is run TWICE IN A ROW in this process from identical seeds, for each of
+    the lengths `gs` (a short run leaves other hidden state behind than a long one); both traces must be equal and
+    must be the prefix of the reference run."""
+    fam, seed, gs = d["family"], d["seed"], d["gs"]
+    orc = None
+    watch = HiddenWatch()
+    for g in gs:
+        res = []
+        for rep in (1, 2):
+            st, t = F.run(fam, seed, g)
+            res.append((dict((str(k), v) for k, v in t.items()), norm(F.fingerprint(st))))
+        orc = compare("run %d generation(s) long, started a second time in the same process" % g,
+                      res[1][0], res[1][1], res[0][0], res[0][1])
+        if orc is None and not fam.startswith("pk_"):
+            rtrace, _ = reference(fam, seed, max(g, d.get("ngen", g)))
+            for k in sorted(res[0][0], key=int):
+                if res[0][0][k] != rtrace[k]:
+                    orc = ("run %d generation(s) long: state after generation %s differs from the same generation of a "
+                           "longer run from the same seed in the same process" % (g, k))
+                    break
+        if orc:
+            break
+    if orc:
+        orc = "family=%s seed=%d: %s" % (fam, seed, orc)
+    elif watch():
+        orc = watch.report("family=%s seed=%d run lengths %r" % (fam, seed, gs))
+    return Case(d, [], [], orc, tag="rerun/%s" % fam)
+
+
+def eval_inproc(d):
+    """(b) in ONE process: an uninterrupted run pickles a checkpoint after every generation; each checkpoint is then
+    restored in the same process (where every piece of hidden state the run left behind is still alive) and continued.
+    A difference is confirmed by the literal history of the statement (kill, NEW process, same generation, same
+    protocol) before it is reported as a failing input; unconfirmed it is a break of the correspondence."""
+    fam, seed, ngen, off = d["family"], d["seed"], d["ngen"], d.get("off", 0)
+    rtrace, rfinal = reference(fam, seed, ngen)
+    cps = {}
+
+    def save(st):
+        p = PROTOCOLS[(off + st["gen"]) % len(PROTOCOLS)]
+        cps[st["gen"]] = (p, pickle.dumps(F.checkpoint(st), p))
+    st, t = F.run(fam, seed, ngen, on_gen=save)
+    orc = compare("uninterrupted run that pickles a checkpoint after every generation",
+                  dict((str(k), v) for k, v in t.items()), norm(F.fingerprint(st)), rtrace, rfinal)
+    ks = d.get("ks") or sorted(cps)
+    for k in ks:
+        if orc is not None:
+            break
+        p, blob = cps[k]
+        st2, t2 = F.run(fam, None, ngen, start=F.restore(pickle.loads(blob)))
+        o = compare("protocol %d: checkpoint of generation %d restored in the SAME process and continued" % (p, k),
+                    dict((str(x), v) for x, v in t2.items()), norm(F.fingerprint(st2)), rtrace, rfinal, from_gen=k)
+        if o:
+            c = eval_crash({"k": "crash", "family": fam, "seed": seed, "ngen": ngen, "g": k, "protos": [p],
+                            "hs": d.get("hs", 1)})
+            if c.oracle:
+                orc = "%s; confirmed by kill and resume in a new process: %s" % (o, c.oracle)
+            else:
+                orc = ("CORRESPONDENCE: hidden state: family=%s seed=%d ngen=%d: %s, while the kill-and-resume in a NEW "
+                       "process agrees" % (fam, seed, ngen, o))
+    if orc and not orc.startswith("CORRESPONDENCE:"):
+        orc = "family=%s seed=%d ngen=%d: %s" % (fam, seed, ngen, orc)
+    return Case(d, [], [], orc, tag="inproc/%s" % fam)
+
+
+def eval_op(d):
+    """One public operator, one small valid input: (1) the hidden-state fingerprint around the single call, (2) the
+    one-operator evolution run twice from identical generator states on equal inputs."""
+    import random as _r
+    name, seed = d["op"], d["seed"]
+    rec = O.RECIPES.get(name)
+    if rec is None:
+        return Case(d, [], [], "CORRESPONDENCE: no recipe for operator %s" % name, tag="op/unknown")
+    res, hidden = [], None
+    for rep in (1, 2):
+        thunk, observed = rec(_r.Random(seed))
+        F.seed_all(seed)
+        watch = HiddenWatch()
+        with warnings.catch_warnings():
+            warnings.simplefilter("ignore")
+            out = thunk()
+        if watch() and hidden is None:
+            hidden = watch
+        res.append(norm([F.fp_value([out, observed]), F.fp_rng()]))
+    orc = None
+    dd = first_diff(res[0], res[1])
+    if dd:
+        orc = ("operator=%s seed=%d: the one-operator evolution (both generators seeded with %d, inputs built from the "
+               "same private seed) gives another result the second time in the same process: %s" % (name, seed, seed, dd))
+    elif hidden is not None:
+        orc = hidden.report("single call of %s (seed=%d)" % (name, seed))
+    return Case(d, [], [], orc, tag="op/%s" % name.split(".")[1])
+
+
+def eval_opcover(d):
+    missing = [n for n in O.public_names() if n not in O.RECIPES]
+    return Case(d, [], [], None, tag="opcover/public=%d/without-recipe=%d%s" % (
+        len(O.public_names()), len(missing), ("(" + ",".join(missing)[:80] + ")") if missing else ""))
 
 
 # ---- (b) ----------------------------------------------------------------------------------------------------------
@@ -401,9 +575,99 @@ def eval_toy(d):
                 ["%d,%d %d,%d" % (full + res)], orc, tag="toy/%s" % ("incomplete" if drop else "complete"))
 
 
+def hstep(uses, s):
+    """The toy of Resume.toyHidden: visible number, hidden position of a two-element cycle."""
+    v, h = s
+    return ((2 * v + 1) if (uses and h) else 2 * v, not h)
+
+
+def eval_hres(d):
+    """The hidden-state algebra of the driver (Resume.HRun / toyHidden) against a harness-local helper: uninterrupted
+    run, kill + new process (hidden = h0), second run in the same process, same-process restore."""
+    u, n, k, v, h, h0 = d["uses"], d["n"], d["at"], d["v"], d["h"], d["h0"]
+
+    def run(m, s):
+        for _ in range(m):
+            s = hstep(u, s)
+        return s
+    full = run(n, (v, h))
+    mid = run(k, (v, h))
+    vis = pickle.loads(pickle.dumps(mid[0], d.get("proto", 2)))            # enc / dec keep the visible part only
+    res = run(n - k, (vis, h0))
+    again = run(n, (v, full[1]))
+    same = run(n - k, (vis, full[1]))
+    orc = None
+    if not u and not (res[0] == full[0] == again[0] == same[0]):
+        orc = "hidden state that is never read, yet a resumed / repeated toy run shows another visible state"
+    sh = lambda s: "%d,%d" % (s[0], 1 if s[1] else 0)  # noqa: E731
+    return Case(d, ["C17 hresume %d %d %d %d %d %d" % (1 if u else 0, n, k, v, 1 if h else 0, 1 if h0 else 0)],
+                ["%s %s %s %s" % (sh(full), sh(res), sh(again), sh(same))], orc,
+                tag="hres/%s" % ("read" if u else "write-only"))
+
+
+def _mig_sel(name):
+    from deap import tools
+    import functools
+    return {"best": tools.selBest, "worst": tools.selWorst, "random": tools.selRandom,
+            "tourn": functools.partial(tools.selTournament, tournsize=2),
+            "dup": lambda p, k: [p[0]] * k, "rev": lambda p, k: list(p[::-1][:k])}[name]
+
+
+def eval_mig(d):
+    """tools.migRing on demes with equal genomes, against Migration.migRingWith (the results of the selection /
+    replacement calls are recorded and handed to the model); and twice from identical seeds."""
+    import random as _r
+    from deap import tools
+    outs = []
+    for rep in (1, 2):
+        demes = [[F.IndBits(g) for g in deme] for deme in d["demes"]]
+        keys, oid, n = {}, {}, 0
+        for deme in demes:
+            for ind in deme:
+                ind.fitness.values = F.eval_onemax(ind)
+                keys.setdefault(tuple(ind), len(keys))
+                oid[id(ind)] = n
+                n += 1
+        tok = lambda ind: "%d.%d" % (keys[tuple(ind)], oid[id(ind)])  # noqa: E731
+        show = lambda ll: ";".join(",".join(tok(i) for i in l) or "-" for l in ll) if ll else "."  # noqa: E731
+        before = show(demes)
+        rec_e, rec_i = [], []
+
+        def wrap(f, rec):
+            def g(p, k):
+                r = list(f(p, k))
+                rec.append(r)
+                return r
+            return g
+        _r.seed(d["seed"])
+        try:
+            tools.migRing(demes, d["km"], wrap(_mig_sel(d["sel"]), rec_e),
+                          wrap(_mig_sel(d["rep"]), rec_i) if d["rep"] else None, d["migarray"])
+            ans = ";".join(",".join(str(oid[id(i)]) for i in l) or "-" for l in demes) if demes else "."
+        except (ValueError, IndexError):
+            ans = "none"
+        if len(rec_e) != len(demes):
+            raise Infra("selection raised inside migRing's first loop: not a valid input")
+        line = "C17 mig %s %s %s %s" % (before, show(rec_e), show(rec_i if d["rep"] else rec_e),
+                                         "none" if d["migarray"] is None else (",".join(map(str, d["migarray"])) or "-"))
+        outs.append((line, ans, [len(x) for x in demes]))
+    orc = None
+    if outs[0][:2] != outs[1][:2]:
+        orc = "migRing called twice from identical generator states on equal demes gives different results"
+    elif outs[0][1] != "none" and outs[0][2] != [len(x) for x in d["demes"]]:
+        orc = "CORRESPONDENCE: migRing changed the size of a deme (C17.migRing_shape)"
+    elif outs[0][1] != "none" and not d["rep"] and len(set(len(e) for e in rec_e)) <= 1 and (
+            d["migarray"] is None or sorted(d["migarray"]) == list(range(len(demes)))):
+        if sorted(tuple(i) for l in demes for i in l) != sorted(tuple(g) for l in d["demes"] for g in l):
+            orc = "CORRESPONDENCE: migRing lost or duplicated a genome (C17.migRing_conserves)"
+    return Case(d, [outs[0][0]], [outs[0][1]], orc,
+                tag="mig/%s/%s" % ("raise" if outs[0][1] == "none" else "ok", "replacement" if d["rep"] else "emigrants"))
+
+
 def evaluate(d):
     return {"det": eval_det, "crash": eval_crash, "pool": eval_pool, "perm": eval_perm, "pmap": eval_pmap,
-            "toy": eval_toy}[d["k"]](d)
+            "toy": eval_toy, "rerun": eval_rerun, "inproc": eval_inproc, "op": eval_op,
+            "opcover": eval_opcover, "hres": eval_hres, "mig": eval_mig}[d["k"]](d)
 
 
 # ---- generation ---------------------------------------------------------------------------------------------------
@@ -431,6 +695,20 @@ def generate(tier, rng, mult):
             for _ in range(4):
                 yield {"k": "det", "family": f, "seed": rng.randint(0, 10 ** 6), "ngen": F.ngen_for(f, ngen),
                        "hs": rng.randint(1, 10 ** 6)}
+    # hidden state, targeted: every family twice in a row (run lengths 0, 1, 2 ...), and every checkpoint of every
+    # family restored in the SAME process; then every public operator once (thorough: five inputs each).  `mult` > 1
+    # (anchor drift, failing-input search after a hidden-state report) adds run seeds.
+    tseeds = seeds + [rng.randint(0, 10 ** 6) for _ in range(min(mult, 20) - 1)]
+    for s in tseeds:
+        for f in F.SHARED + fams + F.PACKAGED:
+            ng = F.ngen_for(f, ngen) if not f.startswith("pk_") else ngen
+            yield {"k": "rerun", "family": f, "seed": s, "gs": [0, 1, 2] if thorough else [0, 1], "ngen": ng}
+        for f in fams:
+            yield {"k": "inproc", "family": f, "seed": s, "ngen": F.ngen_for(f, ngen), "off": off, "hs": hs}
+    for name in O.ORDER:
+        for _ in range((5 if thorough else 1) * min(mult, 5)):
+            yield {"k": "op", "op": name, "seed": rng.randint(0, 10 ** 6)}
+    yield {"k": "opcover"}
     # (b) EVERY family, every crash point
     for s in seeds:
         for f in fams + (["cma_es_shared"] if thorough else []):
@@ -478,6 +756,26 @@ def generate(tier, rng, mult):
         n = rng.randint(0, 8)
         yield {"k": "toy", "n": n, "at": rng.randint(0, n), "a": rng.randint(-5, 5), "b": rng.randint(-5, 5),
                "drop": rng.random() < 0.4, "proto": rng.choice(PROTOCOLS)}
+    for _ in range(100 if thorough else 30):
+        n = rng.randint(0, 8)
+        yield {"k": "hres", "uses": rng.random() < 0.6, "n": n, "at": rng.randint(0, n), "v": rng.randint(-5, 5),
+               "h": rng.random() < 0.5, "h0": rng.random() < 0.5, "proto": rng.choice(PROTOCOLS)}
+    # tools.migRing against its model (tied to /repo): demes over a small genome universe (equal genomes: `index` uses ==)
+    for _ in range(1500 if thorough else 150):
+        nd = rng.choice([0, 1, 2, 2, 3, 3, 3, 4])
+        uni = [[rng.randint(0, 1) for _ in range(3)] for _ in range(rng.randint(1, 6))]
+        demes = [[list(rng.choice(uni)) for _ in range(rng.randint(1, 5))] for _ in range(nd)]
+        r = rng.random()
+        if r < 0.5:
+            ma = None
+        elif r < 0.85:
+            ma = list(range(nd))
+            rng.shuffle(ma)
+        else:
+            ma = [rng.randint(0, nd) for _ in range(rng.randint(0, nd + 1))]
+        yield {"k": "mig", "demes": demes, "km": rng.randint(0, 3), "seed": rng.randint(0, 10 ** 6),
+               "sel": rng.choice(["best", "worst", "random", "tourn", "rev", "dup"]),
+               "rep": rng.choice([None, None, "worst", "random", "best", "dup", "rev"]), "migarray": ma}
     if thorough:
         for s in seeds:
             for f in fams:
